@@ -7,25 +7,25 @@ HERE = os.path.dirname(os.path.abspath(__file__))
 CLAIMED = {
     "C15": {
         "design_ref": "DESIGN.md 4.1",
-        "technique": "deterministic simulation: baton-scheduled real threads with line-level pre-emption inside config.py, simulated thread identifiers (reuse), environment flips; every read checked against a reference model; seeded schedule search, replay + minimisation",
+        "technique": "deterministic simulation: baton-scheduled real threads with pre-emption at every source line / function return / bytecode instruction of config.py, simulated thread identifiers (reuse), environment flips, crowds of 40-100 threads; every read checked against a reference model; seeded schedule search (uniform, sticky, PCT, race-directed) plus systematic single-insertion sweeps; replay + minimisation",
         "text": "Seeded search over thread schedules (uniform/sticky/PCT) x operation programs x environment flips x identifier reuse, each read compared with a reference model of scoped thread-local overrides; sampling, not proof - a clean batch is evidence that no shallow ordering or leftover-state bug exists at line granularity.",
         "note": "Pre-emption only between source lines of sqllineage/config.py (bytecode-level races inside one line and inside dict operations are assumed atomic, as under the GIL); override values stay in the documented domain; trusted: the reference model in sim/props/c15.py, the scheduler in sim/sched.py.",
     },
     "C12": {
         "design_ref": "DESIGN.md 4.2",
-        "technique": "deterministic simulation with fault injection: baton-scheduled caller threads analysing script sequences with reused providers; faults = bad statement at position k, provider failure on the j-th lookup, exception out of a tap between statements; oracle = isolated reference in a fresh fork + provider hygiene probe; seeded search + full fault sweep over a fixed workload",
+        "technique": "deterministic simulation with fault injection: baton-scheduled caller threads analysing script sequences (generated, dialect-specific, corpus, templated with per-project sqlfluff config) with reused providers; faults = bad statement at position k, provider failure on the j-th lookup, exception out of a tap or at a source line of _eval; oracle = isolated reference in a fresh fork + provider hygiene probe; seeded search + full fault sweep over a fixed workload + single-insertion sweeps",
         "text": "Seeded search over run histories x thread schedules x fault points, plus a complete sweep of every failure point (statement position, lookup index, statement boundary) over a fixed 8-script workload; every unfaulted analysis must equal the same analysis alone in a fresh process and every provider must answer like a fresh one whenever it is quiescent. Sampling of histories and schedules; the fault-point sweep is complete only for the fixed workload.",
         "note": "Dependencies (sqlfluff/sqlparse/networkx) are atomic w.r.t. pre-emption; crash points are collaborator call-outs and taps, not arbitrary bytecodes; a wrong-but-stable answer is invisible (reference = same code alone); trusted: sim/props/c12.py, sim/sched.py, the guarded taps in /repo.",
     },
     "C11": {
         "design_ref": "DESIGN.md 4.3",
-        "technique": "deterministic simulation over the hash-seed / process / call-order seams: every input observed in fresh forks of zygotes started with different PYTHONHASHSEED under seeded accessor-call permutations with repetitions; cross-world comparison of canonical dumps",
+        "technique": "deterministic simulation over the hash-seed / process / process-history / call-order seams: every input observed in fresh forks of zygotes started with different PYTHONHASHSEED under seeded accessor-call permutations with repetitions, and in a warm process that analysed sibling scripts first; cross-world comparison of canonical dumps",
         "text": "Every corpus, TPC-DS and generated input is analysed in 4 (quick) / 32 (thorough) interpreters with different string-hash seeds, twice each in fresh forks with different accessor programs; all canonical answers must agree. Sampling over inputs and seeds: a seed-dependent choice that needs a rarer hash collision pattern than the sampled seeds produce is missed.",
         "note": "Canonical dump treats the cytoscape export as an unordered collection of elements (positional edge ids dropped) and rewrites subquery_<int>; exceptions compared by type; trusted: sim/canon.py, sim/props/c11.py.",
     },
     "C03": {
         "design_ref": "DESIGN.md 4.4",
-        "technique": "history-vs-reference-model simulation: seeded operation histories (rw / drop / rename) applied operation by operation to the real accumulator (holder API and rendered SQL through LineageRunner with statement tap) and to a partial reference model (set of allowed states); reorder / duplicate delivery and hash-seed variation as the only fault dimension",
+        "technique": "history-vs-reference-model simulation: seeded operation histories (rw / drop / rename, verbatim repeats, shared holder objects) applied operation by operation to the real accumulator (holder API and rendered SQL through LineageRunner with statement tap) and to a partial reference model (set of allowed states); reorder / duplicate delivery and hash-seed variation; plus a shared-runner world (two baton-scheduled callers on one runner, random schedules and systematic single-insertion sweeps)",
         "text": "Seeded sampling of statement histories (length <= 6, 3-4 tables), each prefix compared with a partial reference model that constrains exactly what the statement constrains; order/duplication clause checked by permuted and repeated delivery; every history runs under one of 8 hash seeds. Not the exhaustive enumeration the quantifier mentions (that would be model checking): coverage is reported as distinct histories and model states reached.",
         "note": "History clause only - there is no I/O, clock or thread in the fold, said plainly in DESIGN.md; RENAME outside the determined zone is checked for weak invariants only; exceptions in the loose zone are not judged; trusted: the model in sim/props/c03.py.",
     },
